@@ -747,14 +747,20 @@ def chunkFits (k : Chunk) (t : Tx) : Bool := (chunkTx k t).frameFits
 def innerLetters (chrom : Str) (k : Chunk) (t : Tx) : Option (List (List Char)) :=
   (innerCodons k t).mapM fun cod => (Spec.lettersAt chrom t.strand cod).map fun l => l.map Spec.upper
 
+/-- known deviation class of the pinned library (label only, C05's F-C05a): a single-block CDS with a non-zero start
+    frame whose 5' end is cut by the chunk loses codons in `translate` -/
+def translationClass (k : Chunk) (t : Tx) : String :=
+  if t.cds.length == 1 && startFrameNat t != 0 && ((bases (cdsLoc t)).head?.map (inChunk k)) == some false then
+    "[single-exon-5p-cut]" else ""
+
 /-- READER clauses of one CDS record on a chunk (source read in one frame): `/codon_start` is the number of in-chunk
     bases before the first codon of the full reading frame; location + `/codon_start` make the reader read exactly the
     inner codons; a requested `/translation` is the reader's translation, which is the translation of the inner codons -/
 def cdsReaderClausesK (fl : Flavor) (trans : Bool) (chrom : Option Str) (k : Chunk) (t : Tx) (r : Rec) : List String :=
-  let cls := cdsClass (chunkTx k t)
+  let cls := cdsClass (chunkTx k t) ++ translationClass k t
   if !t.oneFrame then [] else
-  (if readerFrame r == some (chunkStartFrame k t) then [] else [s!"codon_start{cls}"]) ++
-  (if readerCodonPositions k r == some (innerCodons k t) then [] else [s!"reader_codons{cls}"]) ++
+  (if readerFrame r == some (chunkStartFrame k t) then [] else [s!"codon_start{cdsClass (chunkTx k t)}"]) ++
+  (if readerCodonPositions k r == some (innerCodons k t) then [] else [s!"reader_codons{cdsClass (chunkTx k t)}"]) ++
   (match trans, chrom with
    | true, some s =>
      if !chunkFits k t || t.quals.any (·.1 == kTranslation) then []
